@@ -660,11 +660,17 @@ fn export_items<'tcx>(cx: &mut Cx<'tcx>) -> Vec<(&'static str, J)> {
                 }
                 let mut items: Vec<J> = vec![];
                 for it in tcx.associated_items(d).in_definition_order() {
-                    items.push(J::Obj(vec![
+                    let mut io: Vec<(&'static str, J)> = vec![
                         ("name", J::s(it.opt_name().map(|n| n.to_string()).unwrap_or_else(|| "<rpitit>".to_string()))),
                         ("def", J::s(dp(tcx, it.def_id))),
                         ("kind", J::s(format!("{:?}", it.tag()))),
-                    ]));
+                        ("span", cx.span(tcx.def_span(it.def_id))),
+                    ];
+                    if it.is_type() && it.opt_name().is_some() {
+                        let t = tcx.type_of(it.def_id).instantiate_identity().skip_norm_wip();
+                        io.push(("ty", cx.ty(t)));
+                    }
+                    items.push(J::Obj(io));
                 }
                 o.push(("items", J::Arr(items)));
                 o.push(("span", cx.span(tcx.def_span(d))));
